@@ -1,5 +1,6 @@
 """C20 — integer math helpers equal their mathematical definition on the whole domain;
 fall-backs agree with the intrinsics; Aggregate + / += equals one Aggregate fed with all values."""
+import math
 import os
 import random
 import re
@@ -154,16 +155,23 @@ class C20(flow.Spec):
         if t and t[0] == "x":
             return model == "n/a" and impl.startswith("n=")
         if t and t[0] == "agg" and impl.startswith("count=") and model.startswith("count="):
+            # impl = real doubles, model = exact rationals.  Checked bound (see notes/C20.md), u = 2^-53, C = 8:
+            #   |nvar - S| <= C n u sqrt(S Q) + C n u^2 Q,  |mean - m| <= C n u sqrt(Q/n),
+            #   |var(d) - S/(n-d)| <= tol_nvar/(n-d) + 4 u S/(n-d);  count, min, max, span exact
             fi = dict(x.split("=", 1) for x in impl.split())
             fm = dict(x.split("=", 1) for x in model.split())
             if fi["count"] != fm["count"]:
                 return False
+            n = int(fm["count"])
             lim = {"d": (Fraction(2) ** 1024 - Fraction(2) ** 971), "i": Fraction(2) ** 63}[t[1]]
-            try:
-                scale = Fraction(float(fi["scale"]))
-            except (ValueError, OverflowError):
-                return False
-            tol = Fraction(1, 10 ** 9) * (1 + scale)
+            u, C = 2.0 ** -53, 8.0
+            mean, S = Fraction(fm["mean"]), Fraction(fm["nvar"])
+            Q = S + n * mean * mean
+            tol_nvar = C * n * u * math.sqrt(float(S * Q)) + C * n * u * u * float(Q)
+            tol_mean = C * n * u * math.sqrt(float(Q) / n) if n else 0.0
+            tols = {"mean": tol_mean, "nvar": tol_nvar, "min": 0.0, "max": 0.0, "span": 0.0}
+            for d in (0, 1):
+                tols[f"var{d}"] = (tol_nvar + 4 * u * float(S)) / (n - d) if n > 1 else 0.0
             for k in ("mean", "nvar", "min", "max", "var0", "var1", "span"):
                 a = fi[k]
                 if a == "-" or fm[k] == "-":
@@ -174,8 +182,12 @@ class C20(flow.Spec):
                     return False
                 a = Fraction(float(a))
                 b = fm[k]
-                b = {"TMAX": lim, "TLOWEST": -lim}.get(b) if b in ("TMAX", "TLOWEST") else Fraction(b)
-                if abs(a - b) > (tol if abs(b) < lim / 2 else abs(b) / 10 ** 9):
+                if b in ("TMAX", "TLOWEST"):
+                    b = lim if b == "TMAX" else -lim
+                    if abs(a - b) > abs(b) / 10 ** 9:      # long long limits are printed as rounded doubles
+                        return False
+                    continue
+                if abs(a - Fraction(b)) > Fraction(tols[k]):
                     return False
             return True
         return False
@@ -256,6 +268,28 @@ class C20(flow.Spec):
                     for ch in chunks(pairs, 24):
                         lines.append("v2 %s %s %s" % (fn, ty, " ".join(f"{a} {b}" for a, b in ch)))
                 case(f"dense32 {fn} {ty}", lines)
+        # div_ceil / round_up with arguments of DIFFERENT types: all 64 type pairs; structured sets of both
+        # types (powers of two and neighbours, maxima) + random values of random bit lengths, k often a power of two
+        for fn in ("divceil", "roundup"):
+            for tn in TYPES:
+                lines = []
+                for tk in TYPES:
+                    wn, wk = TYPES[tn][0], TYPES[tk][0]
+                    lines.append(f"sm {fn} {tn} {tk}")
+                    pairs = []
+                    for _ in range(24 if quick else 200):
+                        a = rng.getrandbits(rng.randrange(1, wn + 1))
+                        r = rng.random()
+                        if r < 0.5:
+                            b = 1 << rng.randrange(wk)
+                        elif r < 0.6:
+                            b = ((1 << rng.randrange(wk)) + rng.choice([-1, 1])) & ((1 << wk) - 1)
+                        else:
+                            b = rng.getrandbits(rng.randrange(1, wk + 1))
+                        pairs.append((a, b))
+                    for ch in chunks(pairs, 24):
+                        lines.append("vm %s %s %s %s" % (fn, tn, tk, " ".join(f"{a} {b}" for a, b in ch)))
+                case(f"mixed {fn} {tn}", lines)
         # 64 bit: structured + random values
         for ty in ("u64", "i64"):
             S = structured(64, rng, 200 if quick else 20000)
@@ -309,12 +343,38 @@ class C20(flow.Spec):
                 p("get", r)
         return lines
 
+    def agg_offset_case(self, rng, cid):
+        """large common offset, small spread (|mean| >> stddev: the ill-conditioned case), 1..50 values per
+        side, combined with + and += (and the combination fed further)"""
+        bank = rng.choice("di")
+        off = rng.choice([10 ** 6, 10 ** 9, 10 ** 12, -10 ** 6, -10 ** 9, -10 ** 12, 10 ** 9 + 7, 2 ** 40])
+        spread = rng.choice([1, 2, 10, 10, 100])
+        q = 1 if bank == "i" else rng.choice([1, 1, 2, 8])
+        lines = [f"case aggoff{cid} {bank} off={off} spread={spread}"]
+
+        def value():
+            if q == 1:
+                return str(off + rng.randrange(spread))
+            return f"{off * q + rng.randrange(spread * q)}/{q}"
+        for r in (0, 1):
+            same = rng.random() < 0.1
+            v0 = value()
+            for _ in range(rng.randrange(1, 51)):
+                lines.append(f"agg {bank} add {r} {v0 if same else value()}")
+        tail = rng.choice([["plus 2 0 1", "pluseq 0 1"], ["pluseq 0 1", "plus 2 0 1"], ["plus 2 0 1", "pluseq 2 0", "pluseq 2 1"],
+                           ["pluseq 0 1", "pluseq 0 0"], ["plus 2 0 1", f"add 2 {value()}", "plus 3 2 2", "pluseq 3 3"],
+                           ["plus 2 3 0", "pluseq 2 1", "pluseq 1 3"]])
+        lines += [f"agg {bank} {x}" for x in tail]
+        return lines
+
     def cases(self, ctx, seed, tier, round_no=0):
         rng = random.Random(seed * 1000003 + round_no)
         cs = self.int_cases(rng, tier, round_no)
         n = 300 if tier == "quick" else 6000
         for i in range(n):
             cs.append(self.agg_case(rng, i, rng.choice([6, 12, 25, 50])))
+        for i in range(150 if tier == "quick" else 3000):
+            cs.append(self.agg_offset_case(rng, i))
         # popcount(const void*, size_t): every length 0..40 at every misalignment, random / extreme bytes
         lines = ["case popcount_buf"]
         for ln in list(range(0, 41)) + [rng.randrange(41, 400) for _ in range(4 if tier == "quick" else 60)]:
@@ -372,6 +432,13 @@ class C20(flow.Spec):
             return ("agg", tuple(case[1:])) if (nonempty and empty) else None
         executed = 0
         top = False
+        if case[1].startswith(("sm", "vm")):
+            ex = 0
+            for op, a in zip(case[1:], answers[1:]):
+                m = re.search(r"n=(\d+) skip", a)
+                ex += int(m.group(1)) if m else sum(1 for v in a.split() if v != "-")
+            self.evals += ex
+            return (name, tuple(case[1:3])) if ex else None
         for op, a in zip(case[1:], answers[1:]):
             t = op.split()
             w = TYPES[t[2]][0]
